@@ -55,11 +55,11 @@ func checkC04(c *Ctx) (string, []string) {
 	c.Rule("C04.gas-writers", "every store to a gas cell in package PVM is one of: engine Gas-1, chargeGasAndCheck Gas-10, transfer's Gas-Gas(l) guarded by the unsigned test uint64(Gas) < l (else Gas=0 and out-of-gas), the legacy block executor's Gas-1, or construction", 4)
 	gasT := c.Obj("PVM", "Gas")
 	allowedStores := map[string][]string{
-		"PVM.chargeGasAndCheck":                                   {"(*p0.VM.Gas - 10)"},
-		"(*PVM.Interpreter).SingleStepStateTransition":            {"(p0.Gas - 1)"},
-		"(*PVM.Interpreter).SingleStepInvokeDecodedBlocks":        {"(p0.Gas - 1)"},
-		"(*PVM.Interpreter).ExecuteInstructions":                  {"(p0.Gas - 1)"},
-		"PVM.transfer":                                            {"(*cell(p0).VM.Gas - i64(cell(p0).VM.Registers[9]))", "0"},
+		"PVM.chargeGasAndCheck":                            {"(*p0.VM.Gas - 10)"},
+		"(*PVM.Interpreter).SingleStepStateTransition":     {"(p0.Gas - 1)"},
+		"(*PVM.Interpreter).SingleStepInvokeDecodedBlocks": {"(p0.Gas - 1)"},
+		"(*PVM.Interpreter).ExecuteInstructions":           {"(p0.Gas - 1)"},
+		"PVM.transfer":                                     {"(*cell(p0).VM.Gas - i64(cell(p0).VM.Registers[9]))", "0"},
 	}
 	for _, f := range c.SrcFuncs("PVM") {
 		allInstrs(f, func(in ssa.Instruction) {
